@@ -7,34 +7,212 @@ import MysyncProofs.Lemmas.GtidLemmas
 namespace SelectLemmas
 open Gtid Select GtidLemmas
 
-theorem desirable_terminates (bound : Int) (hb : 0 ≤ bound) (ps : List Pos) :
-    ∀ fuel, ps.length < fuel → mostDesirableFuel bound fuel ps ≠ .outOfFuel := by
-  sorry
+/-! ### one step of the scans -/
 
-theorem desirable_mem (bound : Int) (hb : 0 ≤ bound) (ps : List Pos) (p : Pos)
-    (h : mostDesirable bound ps = .node p) : p ∈ ps := by
-  sorry
+theorem pickBetter_or (a q : Pos) : pickBetter a q = a ∨ pickBetter a q = q := by
+  unfold pickBetter
+  split
+  · split
+    · exact Or.inr rfl
+    · exact Or.inl rfl
+  · split
+    · exact Or.inr rfl
+    · exact Or.inl rfl
 
-theorem desirable_error_iff_empty (bound : Int) (hb : 0 ≤ bound) (ps : List Pos) :
-    (∀ p, mostDesirable bound ps ≠ .node p) ↔ ps = [] := by
-  sorry
+theorem priorityStep_or (a q : Pos) : priorityStep a q = a ∨ priorityStep a q = q := by
+  unfold priorityStep
+  split
+  · exact Or.inr rfl
+  · split
+    · exact pickBetter_or a q
+    · exact Or.inl rfl
 
-theorem never_from (bound : Int) (hb : 0 ≤ bound) (ps : List Pos) (from_ : String) (p : Pos)
-    (h : mostDesirable bound (filterOutHost ps from_) = .node p) : p.host ≠ from_ ∧ p ∈ ps := by
-  sorry
+/-- with equal priorities the priority scan step is the most-recent scan step -/
+theorem priorityStep_eq_pickBetter (a q : Pos) (h : a.prio = q.prio) :
+    priorityStep a q = pickBetter a q := by
+  unfold priorityStep
+  have h1 : ¬ a.prio < q.prio := by omega
+  have h2 : (a.prio == q.prio) = true := by simpa using h
+  rw [if_neg h1, if_pos h2]
 
-theorem top_within_bound (bound : Int) (ps : List Pos) (top : Pos)
-    (ht : mostPriority ps = some top) (hl : top.lag ≤ bound) : mostDesirable bound ps = .node top := by
-  sorry
+theorem priorityStep_prio (a q : Pos) :
+    a.prio ≤ (priorityStep a q).prio ∧ q.prio ≤ (priorityStep a q).prio := by
+  by_cases h1 : a.prio < q.prio
+  · have : priorityStep a q = q := by unfold priorityStep; rw [if_pos h1]
+    rw [this]; constructor <;> omega
+  · by_cases h2 : a.prio = q.prio
+    · rw [priorityStep_eq_pickBetter a q h2]
+      rcases pickBetter_or a q with e | e <;> rw [e] <;> constructor <;> omega
+    · have h2' : ¬ (a.prio == q.prio) = true := by simpa using h2
+      have : priorityStep a q = a := by unfold priorityStep; rw [if_neg h1, if_neg h2']
+      rw [this]; constructor <;> omega
 
-theorem else_top_or_much_fresher (bound : Int) (hb : 0 ≤ bound) (ps : List Pos) (top r : Pos)
-    (ht : mostPriority ps = some top) (h : mostDesirable bound ps = .node r) :
-    r = top ∨ r.lag < top.lag - bound := by
-  sorry
+/-! ### the priority scan returns an element of maximal priority -/
+
+theorem fold_priorityStep_spec (r : List Pos) : ∀ acc : Pos,
+    (r.foldl priorityStep acc = acc ∨ r.foldl priorityStep acc ∈ r) ∧
+    acc.prio ≤ (r.foldl priorityStep acc).prio ∧
+    ∀ q ∈ r, q.prio ≤ (r.foldl priorityStep acc).prio := by
+  induction r with
+  | nil =>
+    intro acc
+    refine ⟨Or.inl rfl, Int.le_refl _, ?_⟩
+    intro q hq
+    cases hq
+  | cons x xs ih =>
+    intro acc
+    simp only [List.foldl_cons]
+    obtain ⟨h1, h2, h3⟩ := ih (priorityStep acc x)
+    obtain ⟨p1, p2⟩ := priorityStep_prio acc x
+    refine ⟨?_, by omega, ?_⟩
+    · rcases h1 with h | h
+      · rcases priorityStep_or acc x with e | e
+        · left; rw [h, e]
+        · right; rw [h, e]; exact List.mem_cons_self
+      · right; exact List.mem_cons_of_mem _ h
+    · intro q hq
+      rcases List.mem_cons.1 hq with rfl | hq
+      · omega
+      · exact h3 q hq
 
 theorem top_has_max_priority (ps : List Pos) (top : Pos) (ht : mostPriority ps = some top) :
     top ∈ ps ∧ ∀ p ∈ ps, p.prio ≤ top.prio := by
-  sorry
+  cases ps with
+  | nil => simp [mostPriority] at ht
+  | cons p0 r =>
+    simp only [mostPriority, Option.some.injEq] at ht
+    obtain ⟨h1, h2, h3⟩ := fold_priorityStep_spec r p0
+    rw [ht] at h1 h2 h3
+    refine ⟨?_, ?_⟩
+    · rcases h1 with h | h
+      · rw [h]; exact List.mem_cons_self
+      · exact List.mem_cons_of_mem _ h
+    · intro p hp
+      rcases List.mem_cons.1 hp with rfl | hp
+      · exact h2
+      · exact h3 p hp
+
+theorem mostPriority_mem {ps : List Pos} {top : Pos} (ht : mostPriority ps = some top) : top ∈ ps :=
+  (top_has_max_priority ps top ht).1
+
+theorem mostPriority_ne_nil {ps : List Pos} (h : ps ≠ []) : ∃ top, mostPriority ps = some top := by
+  cases ps with
+  | nil => exact absurd rfl h
+  | cons p r => exact ⟨_, rfl⟩
+
+/-! ### ties: among the maximal-priority candidates the scan is a `pickBetter` scan -/
+
+/-- what `pickBetter` guarantees when the two sets are comparable -/
+theorem pickBetter_spec (a q : Pos) (ha : WF a.gtid) (hq : WF q.gtid)
+    (hc : GSubset a.gtid q.gtid ∨ GSubset q.gtid a.gtid) :
+    GSubset a.gtid (pickBetter a q).gtid ∧ GSubset q.gtid (pickBetter a q).gtid ∧
+    (GSubset (pickBetter a q).gtid a.gtid → (pickBetter a q).lag ≤ a.lag) ∧
+    (GSubset (pickBetter a q).gtid q.gtid → (pickBetter a q).lag ≤ q.lag) := by
+  unfold pickBetter
+  by_cases he : equal q.gtid a.gtid = true
+  · obtain ⟨haq, hqa⟩ := (equal_iff q.gtid a.gtid hq ha).1 he
+    rw [if_pos he]
+    by_cases hl : q.lag < a.lag
+    · rw [if_pos hl]
+      exact ⟨haq, GSubset.refl _, fun _ => by omega, fun _ => by omega⟩
+    · rw [if_neg hl]
+      exact ⟨GSubset.refl _, hqa, fun _ => by omega, fun _ => by omega⟩
+  · rw [if_neg he]
+    have hne : ¬ (GSubset a.gtid q.gtid ∧ GSubset q.gtid a.gtid) :=
+      fun h => he ((equal_iff q.gtid a.gtid hq ha).2 h)
+    by_cases hcn : contain q.gtid a.gtid = true
+    · have haq := (contain_iff q.gtid a.gtid hq ha).1 hcn
+      rw [if_pos hcn]
+      exact ⟨haq, GSubset.refl _, fun h => absurd ⟨haq, h⟩ hne, fun _ => Int.le_refl _⟩
+    · rw [if_neg hcn]
+      have hnaq : ¬ GSubset a.gtid q.gtid := fun h => hcn ((contain_iff q.gtid a.gtid hq ha).2 h)
+      have hqa : GSubset q.gtid a.gtid := hc.resolve_left hnaq
+      exact ⟨GSubset.refl _, hqa, fun _ => Int.le_refl _, fun h => absurd h hnaq⟩
+
+/-- the candidates under consideration: well-formed, priority at most `M`, and those of priority
+exactly `M` totally ordered by inclusion -/
+structure Univ (M : Int) (U : Pos → Prop) : Prop where
+  wf : ∀ p, U p → WF p.gtid
+  le : ∀ p, U p → p.prio ≤ M
+  chain : ∀ p q, U p → U q → p.prio = M → q.prio = M →
+    GSubset p.gtid q.gtid ∨ GSubset q.gtid p.gtid
+
+/-- the running maximum `a` dominates the already scanned maximal-priority candidate `p` -/
+structure Good (M : Int) (a p : Pos) : Prop where
+  prio : a.prio = M
+  sub : GSubset p.gtid a.gtid
+  lag : GSubset a.gtid p.gtid → a.lag ≤ p.lag
+
+theorem Good.self (M : Int) (a : Pos) (h : a.prio = M) : Good M a a :=
+  ⟨h, GSubset.refl _, fun _ => Int.le_refl _⟩
+
+theorem priorityStep_tie (M : Int) (U : Pos → Prop) (hU : Univ M U) (a q : Pos)
+    (ha : U a) (hq : U q) :
+    U (priorityStep a q) ∧
+    (∀ p, Good M a p → Good M (priorityStep a q) p) ∧
+    (q.prio = M → Good M (priorityStep a q) q) := by
+  have hleq := hU.le q hq
+  have hlea := hU.le a ha
+  by_cases h1 : a.prio < q.prio
+  · have e : priorityStep a q = q := by unfold priorityStep; rw [if_pos h1]
+    rw [e]
+    refine ⟨hq, ?_, ?_⟩
+    · intro p hp
+      have := hp.prio
+      omega
+    · intro hqM; exact Good.self M q hqM
+  · by_cases h2 : a.prio = q.prio
+    · rw [priorityStep_eq_pickBetter a q h2]
+      have hUr : U (pickBetter a q) := by
+        rcases pickBetter_or a q with e | e <;> rw [e] <;> assumption
+      by_cases hM : q.prio = M
+      · have haM : a.prio = M := by omega
+        obtain ⟨s1, s2, s3, s4⟩ :=
+          pickBetter_spec a q (hU.wf a ha) (hU.wf q hq) (hU.chain a q ha hq haM hM)
+        have hprio : (pickBetter a q).prio = M := by
+          rcases pickBetter_or a q with e | e <;> rw [e] <;> assumption
+        refine ⟨hUr, ?_, ?_⟩
+        · intro p hp
+          refine ⟨hprio, GSubset.trans hp.sub s1, fun h => ?_⟩
+          have := s3 (GSubset.trans h hp.sub)
+          have := hp.lag (GSubset.trans s1 h)
+          omega
+        · intro _
+          exact ⟨hprio, s2, s4⟩
+      · refine ⟨hUr, ?_, ?_⟩
+        · intro p hp
+          have := hp.prio
+          omega
+        · intro h; exact absurd h hM
+    · have h2' : ¬ (a.prio == q.prio) = true := by simpa using h2
+      have e : priorityStep a q = a := by unfold priorityStep; rw [if_neg h1, if_neg h2']
+      rw [e]
+      refine ⟨ha, fun p h => h, fun h => ?_⟩
+      omega
+
+theorem fold_tie (M : Int) (U : Pos → Prop) (hU : Univ M U) (l : List Pos) :
+    ∀ acc, U acc → (∀ q ∈ l, U q) →
+      U (l.foldl priorityStep acc) ∧
+      (∀ p, Good M acc p → Good M (l.foldl priorityStep acc) p) ∧
+      (∀ p ∈ l, p.prio = M → Good M (l.foldl priorityStep acc) p) := by
+  induction l with
+  | nil =>
+    intro acc ha _
+    refine ⟨ha, fun p h => h, ?_⟩
+    intro p hp
+    cases hp
+  | cons x xs ih =>
+    intro acc ha hl
+    have hx := hl x List.mem_cons_self
+    obtain ⟨t1, t2, t3⟩ := priorityStep_tie M U hU acc x ha hx
+    obtain ⟨i1, i2, i3⟩ :=
+      ih (priorityStep acc x) t1 (fun q hq => hl q (List.mem_cons_of_mem _ hq))
+    simp only [List.foldl_cons]
+    refine ⟨i1, fun p h => i2 p (t2 p h), ?_⟩
+    intro p hp hpM
+    rcases List.mem_cons.1 hp with rfl | hp
+    · exact i2 _ (t3 hpM)
+    · exact i3 p hp hpM
 
 theorem ties_prefer_superset_then_lag (ps : List Pos) (top : Pos) (ht : mostPriority ps = some top)
     (hwf : ∀ p ∈ ps, WF p.gtid)
@@ -42,13 +220,183 @@ theorem ties_prefer_superset_then_lag (ps : List Pos) (top : Pos) (ht : mostPrio
       GSubset p.gtid q.gtid ∨ GSubset q.gtid p.gtid) :
     ∀ p ∈ ps, p.prio = top.prio →
       GSubset p.gtid top.gtid ∧ (GSubset top.gtid p.gtid → top.lag ≤ p.lag) := by
-  sorry
+  cases ps with
+  | nil => simp [mostPriority] at ht
+  | cons p0 r =>
+    have htop := top_has_max_priority _ _ ht
+    simp only [mostPriority, Option.some.injEq] at ht
+    have hU : Univ top.prio (fun x => x ∈ p0 :: r) :=
+      ⟨fun p hp => hwf p hp, fun p hp => htop.2 p hp,
+        fun p q hp hq h1 h2 => hchain p hp q hq h1 h2⟩
+    obtain ⟨_, f2, f3⟩ := fold_tie top.prio _ hU r p0 List.mem_cons_self
+      (fun q hq => List.mem_cons_of_mem _ hq)
+    rw [ht] at f2 f3
+    intro p hp hpM
+    rcases List.mem_cons.1 hp with rfl | hp
+    · have g := f2 p (Good.self _ p hpM)
+      exact ⟨g.sub, g.lag⟩
+    · have g := f3 p hp hpM
+      exact ⟨g.sub, g.lag⟩
+
+/-! ### `getMostDesirableNode` -/
+
+theorem mDF_zero (bound : Int) (ps : List Pos) : mostDesirableFuel bound 0 ps = .outOfFuel := rfl
+
+theorem mDF_none (bound : Int) (fuel : Nat) (ps : List Pos) (h : mostPriority ps = none) :
+    mostDesirableFuel bound (fuel + 1) ps = .notFound := by
+  simp only [mostDesirableFuel, h]
+
+theorem mDF_some (bound : Int) (fuel : Nat) (ps : List Pos) (top : Pos)
+    (h : mostPriority ps = some top) :
+    mostDesirableFuel bound (fuel + 1) ps =
+      if top.lag ≤ bound then .node top
+      else if (ps.filter fun n => decide (n.lag < top.lag - bound)).isEmpty then .node top
+      else mostDesirableFuel bound fuel (ps.filter fun n => decide (n.lag < top.lag - bound)) := by
+  simp only [mostDesirableFuel, h]
+
+theorem filter_lt_length (bound : Int) (hb : 0 ≤ bound) (ps : List Pos) (top : Pos)
+    (hm : top ∈ ps) :
+    (ps.filter fun n => decide (n.lag < top.lag - bound)).length < ps.length := by
+  apply List.length_filter_lt_length_iff_exists.2
+  refine ⟨top, hm, ?_⟩
+  simp only [decide_eq_true_eq]
+  omega
+
+theorem desirable_terminates (bound : Int) (hb : 0 ≤ bound) (ps : List Pos) :
+    ∀ fuel, ps.length < fuel → mostDesirableFuel bound fuel ps ≠ .outOfFuel := by
+  intro fuel
+  induction fuel generalizing ps with
+  | zero => intro h; omega
+  | succ n ih =>
+    intro h
+    cases hmp : mostPriority ps with
+    | none => rw [mDF_none bound n ps hmp]; intro hc; cases hc
+    | some top =>
+      rw [mDF_some bound n ps top hmp]
+      split
+      · intro hc; cases hc
+      · split
+        · intro hc; cases hc
+        · apply ih
+          have := filter_lt_length bound hb ps top (mostPriority_mem hmp)
+          omega
+
+/-- whatever node is returned, with whatever fuel, is one of the candidates -/
+theorem mDF_mem (bound : Int) : ∀ (fuel : Nat) (ps : List Pos) (r : Pos),
+    mostDesirableFuel bound fuel ps = .node r → r ∈ ps := by
+  intro fuel
+  induction fuel with
+  | zero => intro ps r h; rw [mDF_zero] at h; cases h
+  | succ n ih =>
+    intro ps r h
+    cases hmp : mostPriority ps with
+    | none => rw [mDF_none bound n ps hmp] at h; cases h
+    | some top =>
+      rw [mDF_some bound n ps top hmp] at h
+      split at h
+      · cases h; exact mostPriority_mem hmp
+      · split at h
+        · cases h; exact mostPriority_mem hmp
+        · exact (List.mem_filter.1 (ih _ r h)).1
+
+/-- "destination node not found" only for an empty candidate list -/
+theorem mDF_ne_notFound (bound : Int) : ∀ (fuel : Nat) (ps : List Pos),
+    ps ≠ [] → mostDesirableFuel bound fuel ps ≠ .notFound := by
+  intro fuel
+  induction fuel with
+  | zero => intro ps _ h; rw [mDF_zero] at h; cases h
+  | succ n ih =>
+    intro ps hne
+    obtain ⟨top, hmp⟩ := mostPriority_ne_nil hne
+    rw [mDF_some bound n ps top hmp]
+    split
+    · intro hc; cases hc
+    · split
+      · intro hc; cases hc
+      · rename_i hemp
+        apply ih
+        intro hnil
+        exact hemp (List.isEmpty_iff.2 hnil)
+
+theorem desirable_mem (bound : Int) (hb : 0 ≤ bound) (ps : List Pos) (p : Pos)
+    (h : mostDesirable bound ps = .node p) : p ∈ ps := by
+  have _ := hb  -- not needed: membership holds for every bound
+  exact mDF_mem bound _ ps p h
+
+theorem desirable_error_iff_empty (bound : Int) (hb : 0 ≤ bound) (ps : List Pos) :
+    (∀ p, mostDesirable bound ps ≠ .node p) ↔ ps = [] := by
+  constructor
+  · intro h
+    by_cases hne : ps = []
+    · exact hne
+    · exfalso
+      have h1 := desirable_terminates bound hb ps (ps.length + 1) (Nat.lt_succ_self _)
+      have h2 := mDF_ne_notFound bound (ps.length + 1) ps hne
+      cases hd : mostDesirable bound ps with
+      | notFound => exact h2 hd
+      | outOfFuel => exact h1 hd
+      | node p => exact h p hd
+  · intro h p
+    subst h
+    intro hc
+    have : mostDesirable bound [] = .notFound := rfl
+    rw [this] at hc
+    cases hc
+
+theorem never_from (bound : Int) (hb : 0 ≤ bound) (ps : List Pos) (from_ : String) (p : Pos)
+    (h : mostDesirable bound (filterOutHost ps from_) = .node p) : p.host ≠ from_ ∧ p ∈ ps := by
+  have hm := desirable_mem bound hb _ p h
+  unfold filterOutHost at hm
+  obtain ⟨h1, h2⟩ := List.mem_filter.1 hm
+  refine ⟨?_, h1⟩
+  simpa using h2
+
+theorem top_within_bound (bound : Int) (ps : List Pos) (top : Pos)
+    (ht : mostPriority ps = some top) (hl : top.lag ≤ bound) : mostDesirable bound ps = .node top := by
+  unfold mostDesirable
+  rw [mDF_some bound _ ps top ht, if_pos hl]
+
+theorem else_top_or_much_fresher (bound : Int) (hb : 0 ≤ bound) (ps : List Pos) (top r : Pos)
+    (ht : mostPriority ps = some top) (h : mostDesirable bound ps = .node r) :
+    r = top ∨ r.lag < top.lag - bound := by
+  have _ := hb  -- not needed: the result of the recursion is drawn from the filtered list
+  unfold mostDesirable at h
+  rw [mDF_some bound _ ps top ht] at h
+  split at h
+  · cases h; exact Or.inl rfl
+  · split at h
+    · cases h; exact Or.inl rfl
+    · right
+      have hm := (List.mem_filter.1 (mDF_mem bound _ _ r h)).2
+      simpa using hm
+
+/-! ### equal priorities: the priority scan is the most-recent scan -/
+
+theorem fold_priorityStep_eq (c : Int) (r : List Pos) : ∀ acc : Pos, acc.prio = c →
+    (∀ q ∈ r, q.prio = c) → r.foldl priorityStep acc = r.foldl pickBetter acc := by
+  induction r with
+  | nil => intro acc _ _; rfl
+  | cons x xs ih =>
+    intro acc ha hr
+    have hx : x.prio = c := hr x List.mem_cons_self
+    simp only [List.foldl_cons]
+    rw [priorityStep_eq_pickBetter acc x (by omega)]
+    apply ih
+    · rcases pickBetter_or acc x with e | e <;> rw [e] <;> assumption
+    · intro q hq; exact hr q (List.mem_cons_of_mem _ hq)
 
 theorem equal_priority_is_most_recent (bound : Int) (p : Pos) (r : List Pos)
     (heq : ∀ q ∈ r, q.prio = p.prio) (hl : (scanMostRecent p r).lag ≤ bound) :
     mostDesirable bound (p :: r) = .node (scanMostRecent p r) ∧
     (detectSplitbrain (p :: r) (scanMostRecent p r) = false →
       ∃ m, findMostRecent (p :: r) = .node m ∧ m.host = (scanMostRecent p r).host) := by
-  sorry
+  have hmp : mostPriority (p :: r) = some (scanMostRecent p r) := by
+    simp only [mostPriority, scanMostRecent]
+    rw [fold_priorityStep_eq p.prio r p rfl heq]
+  refine ⟨top_within_bound bound _ _ hmp hl, ?_⟩
+  intro hd
+  refine ⟨scanMostRecent p r, ?_, rfl⟩
+  simp only [findMostRecent, hd]
+  rfl
 
 end SelectLemmas
